@@ -12,8 +12,16 @@ KIND = {'PERF_Event': 1, 'PERF_THD_Data': 2, 'PERF_STK_UHdr': 3, 'PERF_STK_UData
 
 class Env:
     def __init__(self):
-        self.consts = tr_composite.extract()
-        rows, _ = tr_handlers.all_rows()
+        try:
+            self.consts = tr_composite.extract()
+        except Exception:
+            # the translator rejects the current source: inputs are still generated, and the oracle still judges them, from
+            # the constants of the pinned tree (committed snapshot), so that a failing input can be searched for
+            import json
+            import os
+            with open(os.path.join(os.path.dirname(__file__), 'composite_snapshot.json')) as fd:
+                self.consts = json.load(fd)
+        rows, _ = tr_handlers.rows_for_harness()
         self.codes = tr_handlers.last_wins(tr_handlers.codes_entries())
         self.decodable = {r[1] for r in rows}
         self.by_name = {}
